@@ -10,6 +10,44 @@ From Coq Require Import Permutation.
 Open Scope N_scope.
 
 (* ------------------------------------------------------------------------------------ *)
+(* OTLP request -> stored events                                                         *)
+(* ------------------------------------------------------------------------------------ *)
+(* For ALL requests: the events stored for a ResourceSpans entry are a function of that entry alone
+   (whatever resources precede or follow it in the request); in particular every stored span carries
+   the service name of ITS OWN resource, "" when the resource has no Resource message or no
+   service.name attribute; reordering the resources of a request permutes the events. *)
+Theorem C12_request_events_resource_local : forall pre r post,
+  request_events (pre ++ r :: post) = request_events pre ++ resource_events r ++ request_events post.
+Proof. exact request_events_resource_local. Qed.
+Print Assumptions C12_request_events_resource_local.
+
+Theorem C12_event_service_own_resource : forall req e,
+  In e (request_events req) ->
+  exists r o, In r req /\ In o (concat (or_scopes r)) /\ e = span_to_event (resource_service r) o /\
+              sp_service e = resource_service r.
+Proof. exact event_service_own_resource. Qed.
+Print Assumptions C12_event_service_own_resource.
+
+Theorem C12_request_events_perm : forall req req',
+  Permutation req req' -> Permutation (request_events req) (request_events req').
+Proof. exact request_events_perm. Qed.
+Print Assumptions C12_request_events_perm.
+
+Theorem C12_unnamed_resource_service : forall r,
+  match or_attrs r with
+  | None => True
+  | Some attrs => forallb (fun kv => negb (str_eqb (fst kv) service_name_key)) attrs = true
+  end -> resource_service r = [].
+Proof. exact unnamed_resource_service. Qed.
+Print Assumptions C12_unnamed_resource_service.
+
+Theorem C12_named_resource_service : forall pre v post scopes,
+  forallb (fun kv => negb (str_eqb (fst kv) service_name_key)) post = true ->
+  resource_service (mkRes (Some (pre ++ (service_name_key, Some v) :: post)) scopes) = v.
+Proof. exact named_resource_service. Qed.
+Print Assumptions C12_named_resource_service.
+
+(* ------------------------------------------------------------------------------------ *)
 (* span tree                                                                             *)
 (* ------------------------------------------------------------------------------------ *)
 (* Full statement: "the span tree of a trace contains every span of that trace exactly once
